@@ -457,3 +457,13 @@ def run(rep):
     r19c(rep, F, mt)
     r19d(rep, F)
     r19e(rep, F)
+    # a terminate() request from another thread must stay visible whatever the polling thread stores afterwards: eval() reads
+    # the atomic request flag itself on every path (decision tree shared with C18/R18e)
+    from rules import c18
+    if not any(u.endswith('PlannerTerminationCondition.cpp') for u in units):
+        raise AnalysisBroken('R19f: PlannerTerminationCondition.cpp is not among the analysed units')
+    c18.r18e(rep, F)
+    rep.rule_text['R19f'] = 'cross-thread terminate() is sticky: ' + rep.rule_text.pop('R18e')
+    for o in rep.obl:
+        if o['rule'] == 'R18e':
+            o['rule'] = 'R19f'
